@@ -1,7 +1,7 @@
 from __future__ import absolute_import, print_function, division
 from pony.py23compat import PY38
 
-import ast
+import ast, threading
 
 from functools import update_wrapper
 
@@ -441,22 +441,28 @@ class PreTranslator(ASTTranslator):
         = postAdd = postSub = postMult = postMatMult = postDiv = postFloorDiv = postMod = post_binop
 
 extractors_cache = {}
+extractors_cache_lock = threading.RLock()
 
 def create_extractors(code_key, tree, globals, locals, special_functions, const_functions, outer_names=()):
     result = extractors_cache.get(code_key)
     if not result:
-        pretranslator = PreTranslator(tree, globals, locals, special_functions, const_functions, outer_names)
-        extractors = {}
-        for node in pretranslator.externals:
-            src = node.src = ast2src(node)
-            if src == '.0':
-                def extractor(globals, locals):
-                    return locals['.0']
-            else:
-                filename = '<pony ' + src + '>'
-                code = compile(src, filename, 'eval')
-                def extractor(globals, locals, code=code):
-                    return eval(code, globals, locals)
-            extractors[src] = extractor
-        result = extractors_cache[code_key] = tree, extractors
+        # PreTranslator annotates the nodes of the (shared, cached) tree in place: two threads must not do that
+        # to the same tree at the same time
+        with extractors_cache_lock:
+            result = extractors_cache.get(code_key)
+            if result: return result
+            pretranslator = PreTranslator(tree, globals, locals, special_functions, const_functions, outer_names)
+            extractors = {}
+            for node in pretranslator.externals:
+                src = node.src = ast2src(node)
+                if src == '.0':
+                    def extractor(globals, locals):
+                        return locals['.0']
+                else:
+                    filename = '<pony ' + src + '>'
+                    code = compile(src, filename, 'eval')
+                    def extractor(globals, locals, code=code):
+                        return eval(code, globals, locals)
+                extractors[src] = extractor
+            result = extractors_cache[code_key] = tree, extractors
     return result
